@@ -478,6 +478,8 @@ func (e *encFunc) splitCursorRecords(loops []*loopInfo) {
 			if li == nil {
 				continue
 			}
+			fm.Rows[i].Off = f.unwrapOffset(r.Off)
+			r = fm.Rows[i]
 			for a, k := range r.Off.T {
 				ph, ok := f.atomDef(a).(*ssa.Phi)
 				if os.Getenv("IKELINT_DEBUG_CURSOR") != "" {
@@ -497,17 +499,28 @@ func (e *encFunc) splitCursorRecords(loops []*loopInfo) {
 		drop := map[int]bool{}
 		for _, g := range gorder {
 			li := loopOf(g.ph.Block())
-			// the cursor: one entry value, one back-edge value φ + step with a step that does not depend on φ
+			// the cursor: one entry value, one back-edge value φ + step with a step that does not depend on φ. A step
+			// computed inside the loop (4 + len(value)) makes records of variable length: accepted below when the
+			// step is exactly the extent of what one iteration writes
 			var init ssa.Value
 			okPhi := true
+			var step LF
+			haveStep, varStep := false, false
 			for i, ed := range g.ph.Edges {
 				if li.body[g.ph.Block().Preds[i]] {
-					bo, ok := ed.(*ssa.BinOp)
-					if !ok || bo.Op != token.ADD || bo.X != ssa.Value(g.ph) {
-						okPhi = false
-					} else if yi, isIns := bo.Y.(ssa.Instruction); isIns && li.body[yi.Block()] {
-						okPhi = false // the step is computed inside the loop
+					d := f.unwrapOffset(f.LFOf(ed)).add(f.LFOf(g.ph), -1)
+					for a := range d.T {
+						if f.atomDef(a) == ssa.Value(g.ph) {
+							okPhi = false
+						}
+						if ai, isIns := f.atomDef(a).(ssa.Instruction); isIns && ai.Block() != nil && li.body[ai.Block()] {
+							varStep = true
+						}
 					}
+					if haveStep && d.key() != step.key() {
+						okPhi = false
+					}
+					step, haveStep = d, true
 					continue
 				}
 				if init != nil && init != ed {
@@ -515,7 +528,10 @@ func (e *encFunc) splitCursorRecords(loops []*loopInfo) {
 				}
 				init = ed
 			}
-			if !okPhi || init == nil {
+			if os.Getenv("IKELINT_DEBUG_CURSOR") != "" {
+				fmt.Fprintf(os.Stderr, "cursor: group %s k=%d okPhi=%v init=%v step=%s var=%v\n", g.ph.Name(), g.k, okPhi, init, f.Show(step), varStep)
+			}
+			if !okPhi || init == nil || !haveStep || (varStep && g.k != 1) {
 				continue
 			}
 			phLF := f.LFOf(g.ph)
@@ -554,6 +570,41 @@ func (e *encFunc) splitCursorRecords(loops []*loopInfo) {
 				if end := r.Off.add(konst(int64(r.Octets)), 1); end.isConst() && V.InitLen.isConst() && end.C > V.InitLen.C {
 					V.InitLen = end
 				}
+			}
+			// what the same iteration copies in behind those octets belongs to the record too
+			segMoved := map[int]bool{}
+			if varStep {
+				for i, sg := range fm.Segs {
+					if !sg.InLoop || loopOf(sg.Ins.Block()) != li {
+						continue
+					}
+					d := f.unwrapOffset(sg.At).add(start, -1)
+					if !d.isConst() || d.C < 0 {
+						continue
+					}
+					sg.At, sg.InLoop, sg.Iter = d, false, true
+					V.Segs = append(V.Segs, sg)
+					segMoved[i] = true
+				}
+				sort.SliceStable(V.Segs, func(a, b int) bool { return V.Segs[a].At.C < V.Segs[b].At.C })
+				// the records lie back to back only if the cursor moves by exactly what one iteration wrote
+				if os.Getenv("IKELINT_DEBUG_CURSOR") != "" {
+					fmt.Fprintf(os.Stderr, "cursor: group %s extent %s step %s segs %d\n", g.ph.Name(), f.Show(e.familyFinalLen(V)), f.Show(step), len(V.Segs))
+				}
+				if e.familyFinalLen(V).key() != step.key() {
+					continue
+				}
+				var keepSegs []encSeg
+				for i, sg := range fm.Segs {
+					if !segMoved[i] {
+						keepSegs = append(keepSegs, sg)
+					} else if sg.Kind == "family" && sg.Fam != nil && sg.Fam.Parent == fm {
+						sg.Fam.Parent, sg.Fam.ParentAt = V, sg.At.add(start, -1)
+					}
+				}
+				fm.Segs = keepSegs
+			}
+			for _, i := range groups[g] {
 				drop[i] = true
 			}
 			e.fams[g.ph] = V
